@@ -363,59 +363,30 @@ func defNonNil(v ssa.Value, at *ssa.BasicBlock) bool {
 }
 
 func checkC08(c *Ctx) {
-	c.Rule("C08.R1", "for every forward/inverse closure of a registered projection, on every return whose error can be nil each coordinate result has a data dependence on a parameter of the closure")
+	c.Rule("C08.R1", "model evaluation: for each of the eight registered projections the forward member is interpreted on a symbolic position and the inverse member on a symbolic projected position; every coordinate they return mentions an input symbol (a member returning a constant, a parameter or the zero value of an unassigned result cannot be one half of a bijection)")
 	c.Rule("C08.R2", "model evaluation with symbolic parameters and positions, the projection members and the datum shift left as named operations: for eleven pairs of references (units, prime meridians, axis orders, geographic and projected systems, a datum shift on one or both sides) the term NewTransform computes for (x, y) equals the stages mirrored around the shift — source unit multiplies, source inverse member, source prime meridian added, datum shift (through WGS84 in two legs where the code takes that route), destination prime meridian subtracted, destination forward member, destination unit divides, geographic systems convert degrees and radians, axis flips on their own side")
-	c.Rule("C08.R3", "each of longlat, merc, lcc, aea, eqdc, tmerc, utm, krovak is registered and its constructor yields a forward and an inverse closure")
-	c.Rule("C08.R4", "in every registered inverse closure other than the identity, the first result (longitude) depends on the central-meridian field and the second (latitude) does not")
+	c.Rule("C08.R3", "each of longlat, merc, lcc, aea, eqdc, tmerc, utm, krovak is registered, and its constructor, run on a reference parsed from symbolic parameters, returns a forward and an inverse member and no error")
+	c.Rule("C08.R4", "model evaluation, same runs: in every inverse other than the identity the longitude mentions the central meridian (or the zone it is derived from) and the latitude does not")
 	c.Rule("C08.R5", "model evaluation: the inverse member of every registered projection is interpreted on a symbolic projected position for standard parallels in the northern and in the southern hemisphere; where the longitude contains a polar angle atan2(a, b) scaled by a quantity that follows the standard parallels, the arguments for southern parallels are those for northern ones mirrored through the apex (a and b change sign together with the cone constant)")
 	p := c.P.Pkg("proj")
 	if p == nil {
 		c.Unk("C08.R1", "proj", token.NoPos, "package not loaded")
 		return
 	}
-	reg := projRegistry(c)
-	// R3
-	for _, n := range c08names {
-		cons := "proj#registered(" + n + ")"
-		ctor := reg.names[n]
-		if ctor == nil {
-			c.Bad("C08.R3", cons, token.NoPos, "projection %q is not registered", n)
-			continue
-		}
-		sf := c.P.SSAFunc(ctor)
-		fw, iv := closuresOf(c, sf, 0, 0), closuresOf(c, sf, 1, 0)
-		if len(fw) == 0 || len(iv) == 0 {
-			c.Bad("C08.R3", cons, c.P.Decl(ctor).Pos(), "constructor %s does not yield both a forward and an inverse closure (forward %d, inverse %d)", ctor.Name(), len(fw), len(iv))
-		} else {
-			c.OK("C08.R3", cons, c.P.Decl(ctor).Pos(), "%s → forward and inverse closures", ctor.Name())
-		}
-	}
-	// R1 / R4 per constructor
-	done := map[*ssa.Function]bool{}
-	for _, ctor := range reg.ctors {
-		sf := c.P.SSAFunc(ctor)
-		for idx, role := range []string{"forward", "inverse"} {
-			for _, cl := range closuresOf(c, sf, idx, 0) {
-				key := cl
-				name := fmt.Sprintf("%s#%s", c.P.FuncName(ctor), role)
-				if done[key] && role == "forward" {
-					continue
-				}
-				done[key] = true
-				c08closure(c, cl, name, role)
-			}
-		}
-	}
+	c08members(c)
 	c08pipeModel(c, "C08.R2", "", "")
 	c08coneModel(c, "C08.R5")
 	c.Floor("C08.R5", 3)
-	c.Floor("C08.R1", 9)
+	c.Floor("C08.R1", 32)
 	c.Floor("C08.R2", 4)
-	c.Floor("C08.R3", 5)
+	c.Floor("C08.R3", 8)
+	c.Rule("C08.R7", "model evaluation: for the projections whose inverse longitude is in closed form (longlat, merc, lcc, aea, eqdc; the conics for northern and southern standard parallels) the forward member is interpreted on a symbolic position (λ, φ) and the inverse member on the two terms it returns; with the polar angle resolved (atan2(a, b) = t + kπ when a·cos t − b·sin t vanishes identically) the longitude equals λ as a rational term — false origin, scale factor, cone constant and central meridian cancel exactly")
+	c08lonRoundTrip(c, "C08.R7")
+	c.Floor("C08.R7", 5)
 	c.Rule("C08.R6", "angle-normalising helpers of package proj (found by behaviour among the float→float functions the projection constructors reach: identity near zero, not further out), interpreted with a symbolic argument placed inside the principal interval and up to one period outside it on either side: the result is the argument plus a whole number of periods (2π for longitudes, π for latitudes) and lies within half a period of zero")
 	c08wrap(c)
 	c.Floor("C08.R6", 1)
-	c.Floor("C08.R4", 4)
+	c.Floor("C08.R4", 7)
 }
 
 func c08closure(c *Ctx, cl *ssa.Function, name, role string) {
